@@ -5,10 +5,11 @@ X86Model/Driver/Proto.lean). The handler chain tries each property family in tur
 import X86Model.Driver.Proto
 import X86Model.Driver.Addr
 import X86Model.Driver.Port
+import X86Model.Driver.Interrupts
 
 open X86 X86.Driver
 
-def allHandlers : List Handler := [handleC05, handleC18]
+def allHandlers : List Handler := [handleC05, handleC18, handleC17]
 
 def dispatch : Handler := fun cfg op a impl =>
   allHandlers.firstM (fun h => h cfg op a impl)
